@@ -329,8 +329,36 @@ static void do_fault(const char *f) {
 }
 
 int main(int argc, char **argv) {
-  if (argc < 3) die("usage: vcmd <specfile> [args...] <file>");
-  const char *specpath = argv[1], *file = argv[argc - 1];
+  /* A copy of this executable may carry its spec with it: a trailer
+   * "\n#VCMD-SPEC:<path>\n" appended to the file.  Two such copies are two
+   * different programs although they share the code (so a harness can tell
+   * when the wrong executable was run); all arguments are then extra
+   * arguments and the last one is the file. */
+  static char embedded[1024];
+  const char *specpath = NULL;
+  {
+    int efd = open("/proc/self/exe", O_RDONLY);
+    if (efd >= 0) {
+      char tail[1200]; off_t end = lseek(efd, 0, SEEK_END);
+      off_t start = end > (off_t)sizeof tail - 1 ? end - ((off_t)sizeof tail - 1) : 0;
+      ssize_t n = pread(efd, tail, (size_t)(end - start), start);
+      close(efd);
+      if (n > 0) {
+        tail[n] = 0;
+        for (ssize_t i = n - 1; i >= 0; i--) if (tail[i] == 0) tail[i] = 1;
+        char *m = NULL, *q = tail;
+        while ((q = strstr(q, "\n#VCMD-SPEC:")) != NULL) { m = q; q += 1; }
+        if (m) {
+          m += strlen("\n#VCMD-SPEC:");
+          char *e = strchr(m, '\n');
+          if (e && (size_t)(e - m) < sizeof embedded) { memcpy(embedded, m, (size_t)(e - m)); embedded[e - m] = 0; specpath = embedded; }
+        }
+      }
+    }
+  }
+  if (argc < (specpath ? 2 : 3)) die("usage: vcmd <specfile> [args...] <file>");
+  if (!specpath) specpath = argv[1];
+  const char *file = argv[argc - 1];
   FILE *f = fopen(file, "rb"); if (!f) die("cannot open input file");
   fseek(f, 0, SEEK_END); long sz = ftell(f); fseek(f, 0, SEEK_SET);
   text = malloc((size_t)sz + 1); if (!text) die("oom");
@@ -379,6 +407,8 @@ int main(int argc, char **argv) {
     json_str(&b, &len, &cap, out);
     const char *k2 = ",\"err\":"; for (const char *q = k2; *q; q++) { if (len + 8 >= cap) { cap *= 2; b = realloc(b, cap); } b[len++] = *q; }
     json_str(&b, &len, &cap, err);
+    const char *k0 = ",\"spec\":"; for (const char *q = k0; *q; q++) { if (len + 8 >= cap) { cap *= 2; b = realloc(b, cap); } b[len++] = *q; }
+    json_str(&b, &len, &cap, specpath);
     const char *k3 = ",\"argv\":["; for (const char *q = k3; *q; q++) { if (len + 8 >= cap) { cap *= 2; b = realloc(b, cap); } b[len++] = *q; }
     for (int i = 0; i < argc; i++) { if (i) { if (len + 8 >= cap) { cap *= 2; b = realloc(b, cap); } b[len++] = ','; } json_str(&b, &len, &cap, argv[i]); }
     if (len + 8 >= cap) { cap *= 2; b = realloc(b, cap); }
